@@ -24,6 +24,7 @@ R = "_services/registry.py"
 C = "_cache.py"
 D = "_dns.py"
 Q = "_handlers/multicast_outgoing_queue.py"
+B = "_services/browser.py"
 
 # (name, kind, property, file, old, new)
 CASES = [
@@ -89,6 +90,18 @@ CASES = [
     ("Q-M3", "mutation", "C12", Q, "        while len(self.queue) and self.queue[0].send_after <= now:", "        while len(self.queue) and self.queue[0].send_after < now:"),
     ("Q-M4", "mutation", "C12", Q, "            for record in answers:\n                pending.answers.pop(record, None)\n", "            for record in answers:\n                pending.answers.pop(record, None)\n                break\n"),
     ("Q-M5", "mutation", "C12", Q, "        if len(self.queue) > 1 and self.queue[0].send_before > now:", "        if len(self.queue) >= 1 and self.queue[0].send_before > now:"),
+    # ---- _services/browser.py (QueryScheduler) / C10
+    ("S-M1", "mutation", "C10", B, "        if next_when_millis < self._next_run_millis:\n            self._next_run.cancel()",
+     "        if next_when_millis <= self._next_run_millis:\n            self._next_run.cancel()"),
+    ("S-M2", "mutation", "C10", B, "        if next_query_time >= query.expire_time_millis:", "        if next_query_time > query.expire_time_millis:"),
+    ("S-M3", "mutation", "C10", B, "        if scheduled:\n            scheduled.cancelled = True\n", "        if scheduled:\n            pass\n"),
+    ("S-M4", "mutation", "C10", B, "            if query.when_millis > end_time_millis:\n                next_scheduled = query\n                break",
+     "            if query.when_millis >= end_time_millis:\n                next_scheduled = query\n                break"),
+    ("S-M5", "mutation", "C10", B, "    def __lt__(self, other: '_ScheduledPTRQuery') -> bool:\n        \"\"\"Compare two scheduled queries.\"\"\"\n        if type(other) is _ScheduledPTRQuery:\n            return self.when_millis < other.when_millis",
+     "    def __lt__(self, other: '_ScheduledPTRQuery') -> bool:\n        \"\"\"Compare two scheduled queries.\"\"\"\n        if type(other) is _ScheduledPTRQuery:\n            return self.when_millis <= other.when_millis"),
+    ("S-R1", "rewrite", "C10", B, ("additional_wait", "extra_wait"), None),
+    ("S-R2", "rewrite", "C10", B, "        scheduled = self._next_scheduled_for_alias.pop(pointer.alias_key, None)\n        if scheduled:\n",
+     "        scheduled = self._next_scheduled_for_alias.pop(pointer.alias_key, None)\n        if scheduled is not None:\n"),
     ("Q-R1", "rewrite", "C12", Q, ("random_delay", "delay_ms"), None),
     ("Q-R2", "rewrite", "C12", Q, "        if len(self.queue):\n            # If we calculate", "        if self.queue:\n            # If we calculate"),
     ("Q-R3", "rewrite", "C12", Q, "            answers.update(self.queue.popleft().answers)\n", "            group = self.queue.popleft()\n            answers.update(group.answers)\n"),
